@@ -411,6 +411,10 @@ impl Engine for HashMapEngine {
     }
 
     fn run(&mut self, case: &Case, obs: &mut Obs) -> Verdict {
+        // element types without drop glue take other paths through clear / Drop
+        if let Err((what, d)) = crate::plain::hashmap_plain(case.ops.len() as u64 * 7919 + case.init_cap as u64 + case.universe.iter().sum::<u64>(), obs) {
+            return Verdict::violation(format!("C12:{what}"), d);
+        }
         if case.proxy_alloc {
             let mk = || {
                 let a = CaoLangAllocator::new(std::ptr::null_mut(), 1 << 30);
